@@ -550,7 +550,14 @@ func (q *Queue) deliver(meta *QueueMetadata, header textproto.Header, body buffe
 
 	if err := delivery.Commit(bodyCtx); err != nil {
 		dl.Debugf("delivery.Commit failed: %v", err)
-		expandToPartialErr(err)
+		for _, rcpt := range acceptedRcpts {
+			// A recipient that was rejected permanently by BodyNonAtomic
+			// should not be attempted again because Commit failed.
+			if prev := perr.Errs[rcpt]; prev != nil && !exterrors.IsTemporaryOrUnspec(prev) {
+				continue
+			}
+			perr.Errs[rcpt] = err
+		}
 	}
 	dl.Debugf("delivery.Commit OK")
 
